@@ -1062,12 +1062,12 @@ func (ctx *RenderContext) EvaluateExpression(node Node) (interface{}, error) {
 
 			// Check for simple variable references
 			if varNode, ok := n.node.(*VariableNode); ok {
-				// Check directly in context
-				if ctx.context != nil {
-					_, exists := ctx.context[varNode.name]
-					if exists {
-						return true, nil
-					}
+				// A variable that exists is defined, whatever its value (null
+				// included) and in whichever enclosing scope it lives: a loop body,
+				// a macro or an included template sees the same answer as the
+				// scope that set it
+				if ctx.hasVariable(varNode.name) {
+					return true, nil
 				}
 
 				// Try full variable lookup
